@@ -163,6 +163,7 @@ type world struct {
 	sharedS   []string
 	grpSeq    int
 	oddNames  bool
+	plain     bool // no address-groups and no service-groups: the fragment of the whole-vsys theorems
 	mutations []string
 }
 
@@ -306,10 +307,10 @@ func (w *world) deviceVsys(name string) gVsys {
 	if w.rng.Chance(6) {
 		return v // empty device
 	}
-	for i, n := 0, w.rng.Intn(5); i < n; i++ {
+	for i, n := 0, w.rng.Intn(5); i < n && !w.plain; i++ {
 		v.Groups = append(v.Groups, gGrp{Name: fmt.Sprintf("g%d", i), Members: w.pickAddrs(1, 6)})
 	}
-	if w.rng.Chance(35) {
+	if !w.plain && w.rng.Chance(35) {
 		v.SGroups = append(v.SGroups, gGrp{Name: "HTTP-u-HTTPS", Members: []string{"tcp 80", "tcp 443"}})
 	}
 	n := w.rng.Intn(8)
@@ -911,6 +912,10 @@ func (w *world) renumber(v *gVsys) {
 // genCase builds one case.
 func genCase(rng *RNG) caseInput {
 	w := newWorld(rng)
+	if rng.Chance(25) {
+		w.plain = true
+		w.note("plainWorld")
+	}
 	in := caseInput{Shared: []string{w.sharedA[0], w.sharedS[0]}}
 	nV := 1
 	if rng.Chance(20) {
